@@ -22,11 +22,13 @@ import (
 // Receiver is a receiver of CMAF segments.
 // There may be parallel full streams with their own set of tracks (streams).
 type Receiver struct {
-	ctx        context.Context
-	prefix     string
-	storage    string
-	streamsMu  sync.Mutex        // protects streams
-	streams    map[string]stream // mapped by stream.id()
+	ctx       context.Context
+	prefix    string
+	storage   string
+	streamsMu sync.Mutex        // protects streams and streamsSet
+	streams   map[string]stream // mapped by stream.id()
+	// streamsSet has a channel per stream that is closed when the first request of the stream has finished the set-up
+	streamsSet map[string]chan struct{}
 	channelMgr *ChannelMgr
 }
 
@@ -36,6 +38,7 @@ func NewReceiver(ctx context.Context, opts *Options, cfg *Config) (*Receiver, er
 		prefix:     opts.prefix,
 		storage:    opts.storage,
 		streams:    make(map[string]stream),
+		streamsSet: make(map[string]chan struct{}),
 		channelMgr: NewChannelMgr(cfg, uint32(opts.timeShiftBufferDepthS), uint32(opts.receiveNrRawSegments)),
 	}
 	return r, nil
@@ -91,12 +94,15 @@ func (r *Receiver) SegmentHandlerFunc(w http.ResponseWriter, req *http.Request) 
 	_, knownStream := r.streams[stream.id()]
 	if !knownStream {
 		r.streams[stream.id()] = stream
+		r.streamsSet[stream.id()] = make(chan struct{})
 	}
+	streamSet := r.streamsSet[stream.id()]
 	r.streamsMu.Unlock()
 	if !knownStream {
 		log.Info("New stream", "urlPath", path, "streamId", stream.id(), "mediaType", stream.mediaType)
 		err := os.MkdirAll(stream.trDir, 0755)
 		if err != nil {
+			close(streamSet)
 			log.Error("Failed to create directory", "err", err)
 			http.Error(w, "Failed to create directory", http.StatusInternalServerError)
 			return
@@ -105,6 +111,10 @@ func (r *Receiver) SegmentHandlerFunc(w http.ResponseWriter, req *http.Request) 
 		if err != nil {
 			log.Error("Failed to find and process original init segment", "err", err)
 		}
+		close(streamSet)
+	} else {
+		// Another request of the same stream may still be setting the stream up (reading a stored init segment)
+		<-streamSet
 	}
 	defer func() {
 		log.Debug("Closing body", "url", path)
